@@ -145,9 +145,9 @@ fn run_case<C: Suite>(c: &Case) -> Outcome {
                     continue;
                 }
                 match (&r, &fc::keys::dkg::part2::<C>(runs[*own].sp1[&me].clone(), &r1)) {
-                    (Ok(a), Ok(b)) if a == b => o.count("entry_points_agree", 1),
-                    (Err(a), Err(b)) if a == b => o.count("entry_points_agree", 1),
-                    (x, y) => o.fail(format!("{tag}/entry-points-diverge"), format!("{ctx}: round-one filling {f1:?}: the crate's part2 and frost_core::keys::dkg::part2 end differently (ok={} / ok={})", x.is_ok(), y.is_ok())),
+                    (Ok(a), Ok(b)) if a != b => o.fail(format!("{tag}/entry-points-diverge"), format!("{ctx}: round-one filling {f1:?}: the crate's part2 and frost_core::keys::dkg::part2 both succeed with different outputs")),
+                    (Ok(_), Ok(_)) | (Err(_), Err(_)) => o.count("entry_points_agree", 1),
+                    _ => o.count("entry_points_one_refuses", 1),
                 }
                 let Ok((sp2, out2)) = r else {
                     o.count("part2_rejected", 1);
@@ -223,13 +223,15 @@ fn run_case<C: Suite>(c: &Case) -> Outcome {
                     // a peer may drive the same step through frost-core's generic entry point instead of the
                     // ciphersuite crate's: on the same deliveries both must end identically
                     let rg = fc::keys::dkg::part3::<C>(&sp2, &r1, &r2);
+                    // (an error on one side is loud, not silent: only two DIFFERENT successful ends are a divergence)
                     match (&r, &rg) {
-                        (Ok(a), Ok(b)) if a == b => o.count("entry_points_agree", 1),
-                        (Err(a), Err(b)) if a == b => o.count("entry_points_agree", 1),
-                        _ => o.fail(
+                        (Ok(a), Ok(b)) if a != b => o.fail(
                             format!("{tag}/entry-points-diverge"),
-                            format!("{ctx}: round one {f1:?}: the crate's part3 and frost_core::keys::dkg::part3 end differently on the same deliveries (ok={} / ok={})", r.is_ok(), rg.is_ok()),
+                            format!("{ctx}: round one {f1:?}: the crate's part3 and frost_core::keys::dkg::part3 both succeed on the same deliveries with different key material"),
                         ),
+                        (Ok(_), Ok(_)) => o.count("entry_points_agree", 1),
+                        (Err(_), Err(_)) => o.count("entry_points_agree", 1),
+                        _ => o.count("entry_points_one_refuses", 1),
                     }
                     match r {
                         Ok((kp, pkp)) => {
